@@ -10,7 +10,7 @@ import copy
 import numpy as np
 
 from ..core import violation, Discard
-from ..gen_scenes import gen_chain_scene, gen_contact_scene
+from ..gen_scenes import gen_chain_scene, gen_contact_scene, add_knife_edge
 from ..scenes import build
 from ..seams import Sim
 from ..session import gen_solver, project_velocities, run_solver, require_regular, body_states
@@ -77,6 +77,8 @@ def gen(rng, tier, index):
         # fault F2 at the initial-condition fixed point: forced (hook) or organic (tiny iteration budget), with the
         # legal option continue_with_unconverged on or off
         plan["ic_fault"] = {"how": str(rng.choice(["forced", "budget"])), "continue": bool(rng.random() < 0.6), "max_iter": int(rng.integers(1, 4))}
+    if fam != "contact":
+        add_knife_edge(rng, scene, prob=0.3)  # velocity-level constraint: gamma_dot(u_dot0) = 0 and W_gamma la_gamma0 in the monitor
     return plan
 
 
@@ -121,6 +123,8 @@ def monitor_ic(B, out, tag):
         out["probes"]["compliance_present"] += 1
     if s.nla_tau:
         out["probes"]["actuator_present"] += 1
+    if s.nla_gamma:
+        out["probes"]["velocity_level_constraint_present"] += 1
     # ---- contacts
     if s.nla_N:
         gN, gNd = s.g_N(t, q), s.g_N_dot(t, q, u)
